@@ -780,6 +780,24 @@ def check_translated(prop, tier, seed, replay):
                 found_input = True
         finally:
             shutil.rmtree(wd0, ignore_errors=True)
+        # 3c'. a parameter index beyond the arity, for every clause macro that binds _1 … _15
+        wd1 = tempfile.mkdtemp(prefix='farmar_')
+        try:
+            afails, nar = farm.run_beyond_arity(tier, wd1)
+            nprog += nar
+            stats['beyond_arity_programs'] = nar
+            for k, (macro, n, kk, expected, what, src) in enumerate(afails[:3]):
+                ndis += 1
+                path = vlib.write_replay(prop, tier, seed, 'arity-%s-%s-%s' % (macro, n, kk),
+                                         ['verdict violation', 'clause %s on a function of %s parameters using _%s: expected %s' % (macro, n, kk, expected),
+                                          'compiler: %s' % what,
+                                          'compile with: g++ -std=%s -fsyntax-only -I/repo/include -I/verif/harness/farm <this file>'
+                                          % ('c++20' if macro.replace('LR_', '').startswith('CO_') else 'c++17')],
+                                         src.split('\n'))
+                violations.append([path, False])
+                found_input = True
+        finally:
+            shutil.rmtree(wd1, ignore_errors=True)
         # 3d. generated clause lists, fate predicted by the model
         wd = tempfile.mkdtemp(prefix='farm_')
         try:
